@@ -24,6 +24,10 @@ type renderFont struct {
 	Glyphs       map[string][]byte
 	GlyphOrder   []string
 	CreationDate string
+	// overrides for hostile files (suite hostilefiles): raw PostScript text used instead of the regular entry
+	EncodingText string // e.g. "/Encoding 5 def\n"
+	LenIVText    string // value written after /lenIV (charstrings keep the IV of LenIV)
+	BBoxText     string
 }
 
 type renderLayout struct {
@@ -81,7 +85,9 @@ func (f *renderFont) render(l renderLayout) []byte {
 	}
 	a.WriteString("end readonly def\n")
 	fmt.Fprintf(&a, "/FontName /%s def\n", f.FontName)
-	if f.StdEncoding {
+	if f.EncodingText != "" {
+		a.WriteString(f.EncodingText)
+	} else if f.StdEncoding {
 		a.WriteString("/Encoding StandardEncoding def\n")
 	} else if f.Encoding != nil {
 		a.WriteString("/Encoding 256 array\n0 1 255 {1 index exch /.notdef put} for\n")
@@ -94,7 +100,11 @@ func (f *renderFont) render(l renderLayout) []byte {
 	}
 	a.WriteString("/PaintType 0 def\n/FontType 1 def\n")
 	fmt.Fprintf(&a, "/FontMatrix %s readonly def\n", f.FontMatrix)
-	a.WriteString("/FontBBox {0 0 1000 1000} readonly def\ncurrentdict end\n")
+	if f.BBoxText != "" {
+		fmt.Fprintf(&a, "/FontBBox %s readonly def\ncurrentdict end\n", f.BBoxText)
+	} else {
+		a.WriteString("/FontBBox {0 0 1000 1000} readonly def\ncurrentdict end\n")
+	}
 
 	iv := func(k int) []byte {
 		n := f.LenIV
@@ -112,7 +122,9 @@ func (f *renderFont) render(l renderLayout) []byte {
 	fmt.Fprintf(&b, "/%s {string currentfile exch readstring pop} executeonly def\n", rd)
 	fmt.Fprintf(&b, "/%s {noaccess def} executeonly def\n", nd)
 	fmt.Fprintf(&b, "/%s {noaccess put} executeonly def\n", np)
-	if f.LenIV >= 0 {
+	if f.LenIVText != "" {
+		fmt.Fprintf(&b, "/lenIV %s def\n", f.LenIVText)
+	} else if f.LenIV >= 0 {
 		fmt.Fprintf(&b, "/lenIV %d def\n", f.LenIV)
 	}
 	for _, kv := range f.Private {
